@@ -293,6 +293,49 @@ fn check_message(flavour: &str, msg: &str, kind: &RKind, loc: &Path, payload_see
     Ok(())
 }
 
+/// the observed first report, with its facts replaced by the reference interpreter's prediction for the same
+/// place and the same kind of fault (unchanged when the interpreter predicts no such fault there)
+fn from_reference(ty: &Ty, seen: &PV, kind: RKind, loc: &Path) -> RKind {
+    use dv_core::interp::PKind;
+    let (_, pred) = dv_core::interp::interp(ty, seen);
+    let here: Vec<&PKind> = pred.reports.iter().filter(|r| r.loc == *loc).map(|r| &r.kind).collect();
+    match &kind {
+        RKind::UnknownKey { key, .. } => {
+            for p in &here {
+                if let PKind::UnknownKey { key: k, accepted } = p {
+                    if k == key {
+                        return RKind::UnknownKey { key: key.clone(), accepted: accepted.clone() };
+                    }
+                }
+            }
+        }
+        RKind::UnknownValue { value, .. } => {
+            for p in &here {
+                if let PKind::UnknownValue { value: v, accepted } = p {
+                    if v == value {
+                        return RKind::UnknownValue { value: value.clone(), accepted: accepted.clone() };
+                    }
+                }
+            }
+        }
+        RKind::MissingField { field } => {
+            let predicted: Vec<&String> = here.iter().filter_map(|p| if let PKind::MissingField { field } = p { Some(field) } else { None }).collect();
+            if !predicted.is_empty() && !predicted.contains(&field) {
+                return RKind::MissingField { field: predicted[0].clone() };
+            }
+        }
+        RKind::BadSequenceLen { actual, .. } => {
+            for p in &here {
+                if let PKind::BadSequenceLen { expected, .. } = p {
+                    return RKind::BadSequenceLen { actual: actual.clone(), expected: *expected };
+                }
+            }
+        }
+        _ => {}
+    }
+    kind
+}
+
 pub fn test(reg: &Reg, case: &Case, stats: Option<&mut Stats>) -> Verdict {
     let e = &reg.entries[case.ty];
     if case.payload.has_dup_keys() || case.payload.has_nonfinite() || !payload_keys_plain(&case.payload) {
@@ -340,6 +383,10 @@ pub fn test(reg: &Reg, case: &Case, stats: Option<&mut Stats>) -> Verdict {
         st.class(&format!("origin: {}", e.origin));
     }
     let Some((kind, loc)) = first else { return Verdict::Ok };
+    // what is REALLY accepted / missing / expected there comes from the reference interpreter (where it models the
+    // type), not from the report the code under test made: a wrong list of alternatives in the report itself
+    // would otherwise be rendered faithfully and pass
+    let kind = if reg.modelled[case.ty] { from_reference(&e.ty, &seen, kind, &loc) } else { kind };
     for (flavour, got) in [("JsonError", jf(&case.payload)), ("QueryParamError", qf(&case.payload))] {
         let Ok(Err(msg)) = got else { continue };
         if let Err((sig, what)) = check_message(flavour, &msg, &kind, &loc, &seen) {
